@@ -109,7 +109,8 @@ theorem pool_mutex {cfg : Cfg} {s : State} (h : Reachable cfg s) {t u : Nat}
 
 /-! ## No lost wake-up, no deadlock
 
-Hypotheses: at least one worker; job bodies only enqueue jobs or terminate the pool (`JobsOk`); the destructor runs
+Hypotheses: at least one worker; job bodies only enqueue jobs, terminate the pool, read `done()`/`idle()` or throw
+(`JobsOk`, i.e. they do not call `loop_until_*` themselves); the destructor runs
 after the client threads were joined (built into the model's main thread). -/
 
 /-- **No stranded worker, no deadlock on the mutex.**  If the threads come to rest (nobody can take a step
@@ -235,6 +236,9 @@ theorem pool_at_rest_waiter {cfg : Cfg} (hn : 1 ≤ cfg.nworkers) (hj : JobsOk c
   cases a with
   | enq n => simp at hcp
   | term => simp at hcp
+  | obsDone => simp at hcp
+  | obsIdle => simp at hcp
+  | throw => simp at hcp
   | lue =>
     left
     simp only [blockedOk] at hok
@@ -298,6 +302,21 @@ theorem pool_stuck_is_at_rest {cfg : Cfg} {s : State} (h : Reachable cfg s) (hst
     rw [hstuck t 0] at ho
     simp at ho
 
+/-- **A job that throws is a job that ran.**  The worker catches the `std::exception`, logs it and continues
+    behind the try/catch exactly as after a normal return (fence, `++done_`, `--busy_`, notification): in the model
+    a body that throws ends like a body that returns, so every job id in `thrown` is in `finished`, and all
+    theorems above — in particular `done = number of jobs run` at the return of `loop_until_empty` and the absence
+    of stranded waiters — hold for job tables with throwing jobs. -/
+theorem pool_thrown_jobs_counted {cfg : Cfg} {s : State} (h : Reachable cfg s) :
+    (∀ id, id ∈ s.thrown → id ∈ s.finished) ∧ s.done + s.thr.countP pendDone = s.finished.length :=
+  ⟨reachable_thrown h, (reachable_invB h).done⟩
+
+/-- **`done()` never runs ahead**: what an observer can read from `done_` is at most the number of job bodies that
+    have ended (returned or thrown); it lags behind only by the workers between the end of a body and `++done_`. -/
+theorem pool_done_le_finished {cfg : Cfg} {s : State} (h : Reachable cfg s) : s.done ≤ s.finished.length := by
+  have := (reachable_invB h).done
+  omega
+
 /-- **`idle()` counts the workers waiting for jobs**: in every reachable state `idle_` equals the number of
     workers between `++idle_` and `--idle_` (evaluating the wait predicate, about to wait, waiting, or just woken). -/
 theorem pool_idle_count {cfg : Cfg} {s : State} (h : Reachable cfg s) : s.idle = s.thr.countP inIdle :=
@@ -345,5 +364,26 @@ example : ∃ s, Reachable exCfg2 s ∧ AtRest exCfg2 s ∧ s.wJ = [1] ∧ s.wF 
   · unfold enabled
     have : s.thr[t]? = none := by simp; omega
     simp [this]
+
+
+/-- `exCfg3`: an `init_thread` callback with one scheduling point; job code 0 enqueues a child, then throws (its
+    third call is never made); the child and the main thread read `done()`; main waits with `loop_until_empty()`.
+    The run ends with both jobs started and finished once, job 0 recorded as thrown, `done = 2`. -/
+def exCfg3 : Cfg :=
+  { nworkers := 1, initYields := 1, prog := fun c => if c = 0 then [.enq 1, .throw, .enq 1] else [.obsDone],
+    clients := [], mainCalls := [.enq 0, .lue, .obsDone] }
+def exChoices3 : List (Nat × Nat) := [(0,0),(0,0),(0,0),(0,0),(0,0),(0,0),(0,0),(1,0),(1,0),(1,0),(1,0),(1,0),(1,0),(1,0),(1,0),(1,0),(1,0),(1,0),(1,0),(1,0),(1,0),(1,0),(1,0),(1,0),(1,0),(1,0),(0,0),(0,0),(0,0),(1,0),(1,0),(1,0),(1,0),(1,0),(1,0),(1,0),(1,0),(1,0),(1,0),(0,0),(0,0),(0,0),(0,0),(0,0),(0,0),(0,0),(0,0),(0,0),(1,0),(1,0),(1,0),(1,0),(1,0),(0,0)]
+
+example : (runChoices exCfg3 (init exCfg3) exChoices3).map
+    (fun (s : State) => (s.started, s.finished, s.thrown, s.done)) = some ([0, 1], [0, 1], [0], 2) := by decide
+
+example : (runChoices exCfg3 (init exCfg3) exChoices3).map
+    (fun (s : State) => s.thr.all (fun (th : Thread) => th.pc == Pc.finished)) = some true := by decide
+
+example : JobsOk exCfg3 := by
+  intro code a h
+  by_cases hc : code = 0 <;> simp [exCfg3, hc] at h
+  · rcases h with rfl | rfl | rfl <;> simp
+  · subst h; simp
 
 end TlxVerif.C10
